@@ -1,0 +1,76 @@
+//go:build verif
+
+package builder
+
+import (
+	"strings"
+
+	"seehuhn.de/go/sfnt/opentype/gtab"
+)
+
+// Hooks for the verification harness (property C19).  Add-only; compiled only
+// with the "verif" build tag.
+
+// VerifC19Item is the exported form of a lexer item.
+type VerifC19Item struct {
+	Typ  int
+	Val  string
+	Line int
+}
+
+// VerifC19Lex runs the lexer over input and returns every item it emits,
+// up to the point where it closes its channel.
+func VerifC19Lex(input string) []VerifC19Item {
+	_, c := lex(input)
+	var res []VerifC19Item
+	for it := range c {
+		res = append(res, VerifC19Item{Typ: int(it.typ), Val: it.val, Line: it.line})
+	}
+	return res
+}
+
+// VerifC19ItemError is the numerical value of itemError.
+const VerifC19ItemError = int(itemError)
+
+// VerifC19NestedItem is the exported form of a gtab.SeqLookup.
+type VerifC19NestedItem struct {
+	LookupListIndex int
+	SequenceIndex   int
+}
+
+// VerifC19ReadNested runs readNestedLookups over the items of input, with the
+// same error handling as Parse.
+func VerifC19ReadNested(input string) (res []VerifC19NestedItem, err error) {
+	_, tokens := lex(input)
+	p := &parser{tokens: tokens}
+	defer func() {
+		if r := recover(); r != nil {
+			for range tokens {
+				// drain the lexer
+			}
+			if e, ok := r.(*parseError); ok {
+				err = e
+			} else {
+				panic(r)
+			}
+		}
+	}()
+	for _, a := range p.readNestedLookups() {
+		res = append(res, VerifC19NestedItem{int(a.LookupListIndex), int(a.SequenceIndex)})
+	}
+	for range tokens {
+		// the caller of readNestedLookups would go on reading
+	}
+	return res, nil
+}
+
+// VerifC19ExplainNested exposes explainNested.
+func VerifC19ExplainNested(actions []VerifC19NestedItem) string {
+	ee := &explainer{w: &strings.Builder{}}
+	aa := make([]gtab.SeqLookup, len(actions))
+	for i, a := range actions {
+		aa[i] = gtab.SeqLookup{SequenceIndex: uint16(a.SequenceIndex), LookupListIndex: gtab.LookupIndex(a.LookupListIndex)}
+	}
+	ee.explainNested(aa)
+	return ee.w.String()
+}
